@@ -54,6 +54,7 @@ REV=[
  ("emit array item-count rules",["C04","C12"],"R-SYM/S7"),
  ("bound the exponent of decimal literals",["C06"],"R-TERM/T-cost"),
  ("merge format edits that share a source line",["C19"],"R-CONST/disjoint"),
+ ("a j5 Any holding a message with every field at its default",["C01"],"R-FLOW/anycontent"),
 ]
 n=0
 for sub,props,expect in REV:
